@@ -24,10 +24,11 @@ Space (enumerated completely, simplest first): a parametric skool/ref/option gra
                  [MemoryMap:*] parameters, [Resources], Logo/LogoImage, JavaScript
     options      -1 -a -C -D/-H -l/-u -o -O -T -j and every subset of -w dimoP
 
-explored as core.deviations from the default configuration (quick: d <= 1 over all
-dimensions and d <= 2 over the link-forming core dimensions; thorough: d <= 2 over all
-and d <= 3 over the core).  The -w letters form one dimension whose 31 non-default
-values are all run.
+explored as core.deviations from the default configuration (quick: d <= 2 over all 44
+dimensions; thorough: additionally d <= 3 over the 21 link-forming core dimensions).
+The -w letters form one more dimension whose 31 non-default values are all run (quick:
+on the default configuration; thorough: on every configuration with <= 1 deviation),
+each judged against the complete tree of the same configuration.
 
 Oracle (independent of the code: a page/anchor model written from ref-files.rst,
 skool-files.rst, skool-macros.rst and the walker):
@@ -71,7 +72,7 @@ DEFAULT = dict(
 )
 ALTS = dict(
     tgt=['mid', 'ep', 'nonins', 'self', 'selfmid', 'e3', 'e3mid', 'remote', 'remote_ep', 'remote_undeclared', 'nowhere'],
-    rtgt=['e2mid', 'e2ep', 'e1', 'e1mid', 'e1ep', 'e0', 'remote', 'remote_ep', 'other_entry'],
+    rtgt=['e2mid', 'e2ep', 'e1', 'e1mid', 'e1ep', 'e0', 'e3', 'remote', 'remote_ep', 'other_entry'],
     rform=['text', 'anchor_entry', 'named', 'hex', 'full'],
     ttype=['b', 't', 'w', 'g', 'u', 's'],
     stype=['b', 't', 'w', 'g', 'u', 's'],
@@ -332,12 +333,13 @@ class Case:
         the ref-file text expanded by the writer of the secondary disassembly 'other')."""
         cfg = self.cfg
         kind = cfg['rtgt']
-        if kind == 'e0' and not self.e0:
+        if (kind == 'e0' and not self.e0) or (kind == 'e3' and not self.e3):
             kind = 'e2'
         addr, entry, code = {
             'e2': (E2, E2, 'main'), 'e2mid': (E2 + 10, E2, 'main'), 'e2ep': (E2 + 3, E2, 'main'),
             'e1': (E1, E1, 'main'), 'e1mid': (E1 + 1, E1, 'main'), 'e1ep': (E1 + 2, E1, 'main'),
             'e0': (8, self.e0[0] if self.e0 else 8, 'main'),
+            'e3': (E3, E3, 'main'),        # by default an 'i' (ignored) entry: it has instructions but no page
             'remote': (OC, OC, 'other'), 'remote_ep': (OC + 3, OC, 'other'), 'other_entry': (OC2, OC2, 'other'),
         }[kind]
         # @code is written only for a *different* disassembly.  Naming the current disassembly's own id
@@ -433,6 +435,8 @@ class Case:
              '@remote=main:{},{},{}'.format(self.op(E2), self.op(E2 + 3), self.op(E2 + 10))]
         if self.e0:
             L.append('@remote=main:' + ','.join(self.op(a) for a, _, _ in self.e0[1]))
+        if self.e3:
+            L.append('@remote=main:' + ','.join(self.op(a) for a, _, _ in self.e3[1]))
         L += ['; Other routine #R{}@main'.format(E1),
               ';',
               '; From other code {} #R{}@main #R{} #LINK(GameIndex)(home) #LINK(MemoryMap#32768)(map) #LINK(other-Index#{})(own) #UDG{} '
@@ -651,6 +655,14 @@ class Case:
             page = add(P['Changelog'], 'box', 'P')
             ids[page].update({'c1': 'box_entry'})
         add(P['GameIndex'], 'index', 'i')
+        # an 'i' entry has no page: these are the places a link to it would point at
+        self.ignored_targets = set()
+        if self.e3 and self.e3[1][0][1] == 'i':
+            if single:
+                self.ignored_targets = {(posixpath.normpath(P['AsmSinglePage']), A(a)) for a, _, _ in self.e3[1]}
+            else:
+                page = posixpath.normpath(posixpath.join(P['CodePath'], fname(E3)))
+                self.ignored_targets = {(page, '')} | {(page, A(a)) for a, _, _ in self.e3[1]}
         self.html = html
         self.ids = ids
         self.owner = owner
@@ -952,7 +964,7 @@ def check_tree(case, tree, w=W_FULL, full=None, counters=None):
             page=pcat, target=tcat, same_page=(target == p), where='operand' if cell == 'instruction' else 'text',
             # the fragment is the address anchor of an instruction of another disassembly than the target page's
             fragment_of_other_disassembly=bool(owners) and case.owner.get(target) not in owners,
-            anchor=cfg['anchor'])
+            anchor=cfg['anchor'], ignored_entry=(target, frag) in case.ignored_targets)
 
     for p in sorted(tree.pages):
         wk = tree.pages[p]
@@ -997,7 +1009,8 @@ def check_tree(case, tree, w=W_FULL, full=None, counters=None):
                     count('to_page_excluded_by_w')
                 continue
             bad('broken_link', '{}>{}'.format(pcat, tcat or ('page' if is_page else what)),
-                '{}:{}: <{} {}="{}"> names {} which was not written'.format(p, line, tag, attr, url, target), page=pcat, target=tcat, ref=what)
+                '{}:{}: <{} {}="{}"> names {} which was not written'.format(p, line, tag, attr, url, target), page=pcat, target=tcat, ref=what,
+                ignored_entry=(target, frag) in case.ignored_targets or (target, '') in case.ignored_targets)
     return out
 
 
